@@ -142,7 +142,7 @@ def main():
         try:
             for e in edits:
                 e(root)
-            env = dict(os.environ, VERIF_REPO=root)
+            env = dict(os.environ, VERIF_REPO=root, CKC_EVIDENCE_DIR=os.path.join(root, "_evidence"))
             alarms = {}
             for p in props:
                 o = subprocess.run([os.path.join(ROOT, "check"), p], cwd=ROOT, env=env, capture_output=True, text=True)
